@@ -504,6 +504,46 @@ class Workflow(Composite):
             )
             raise e
 
+    def _ensure_io_survives_replacement(self, owned: Node, replacement: Node) -> None:
+        # The IO of a workflow is a view of its children's channels under their
+        # (possibly re-mapped) keys, cf. `_build_io`. Work out the keys the view is going
+        # to have once the replacement carries the owned node's label and connections,
+        # and refuse the replacement if two channels would end up under the same key --
+        # afterwards is too late: undoing the replacement needs that very view
+        for i_or_o, key_map in (
+            ("inputs", self.inputs_map),
+            ("outputs", self.outputs_map),
+        ):
+            key_map = {} if key_map is None else key_map
+            owned_panel = getattr(owned, i_or_o)
+            keys = set()
+            nodes = [n for n in self.children.values() if n is not owned]
+            for node in nodes + [replacement]:
+                label = owned.label if node is replacement else node.label
+                for channel in getattr(node, i_or_o):
+                    if node is replacement:
+                        connected = (
+                            channel.label in owned_panel.labels
+                            and owned_panel[channel.label].connected
+                        )
+                    else:
+                        connected = channel.connected
+                    scoped_label = f"{label}__{channel.label}"
+                    try:
+                        io_panel_key = key_map[scoped_label]
+                        if not isinstance(io_panel_key, str):
+                            continue  # Deactivated
+                    except KeyError:
+                        if connected:
+                            continue
+                        io_panel_key = scoped_label
+                    if io_panel_key in keys:
+                        raise ValueError(
+                            f"Replacing {owned.label} by {replacement.label} would "
+                            f"expose two channels of {self.label} as {io_panel_key}"
+                        )
+                    keys.add(io_panel_key)
+
     @property
     def _owned_io_panels(self) -> list[IO]:
         # Workflow data IO is just pointers to child IO, not actually owned directly
